@@ -124,6 +124,11 @@ pub fn build(
         anyhow::bail!("the base type of enum `{resolvee_path}` is not a built-in integer type");
     };
 
+    // `#[repr(..)]` on an enum without variants is rejected by rustc.
+    if definition.statements.is_empty() {
+        anyhow::bail!("enum `{resolvee_path}` has no cases");
+    }
+
     let mut fields: Vec<(String, isize)> = vec![];
     // The value of the next case if it is not given explicitly; `None` after `isize::MAX`.
     let mut last_field = Some(0isize);
